@@ -164,19 +164,19 @@ def impl_case(case, m=None):
             return [S(fragment_list_to_text(frs)), fragment_list_len(frs), canon_frags(list(explode_text_fragments(frs))),
                     canon_frags(list(to_formatted_text(frs, style=st)))]
         if k == 3:
-            s = unS(case[2])
+            s = unS(case[1])
             return _markup(ANSI, lambda: ANSI(s))
         if k == 4:
-            return run_template(ANSI, [unS(p) for p in case[2]], [unS(v) for v in case[3]],
+            return run_template(ANSI, [unS(p) for p in case[1]], [unS(v) for v in case[2]],
                                 (m or {}).get("specs"), (m or {}).get("raw"))
         if k == 5:
-            s = unS(case[2])
+            s = unS(case[1])
             return [S(ansi_escape(s)), S(html_escape(s))]
         if k == 6:
-            s = unS(case[2])
+            s = unS(case[1])
             return _markup(HTML, lambda: HTML(s))
         if k == 7:
-            return run_template(HTML, [unS(p) for p in case[2]], [unS(v) for v in case[3]],
+            return run_template(HTML, [unS(p) for p in case[1]], [unS(v) for v in case[2]],
                                 (m or {}).get("specs"), (m or {}).get("raw"))
     except BaseException as e:  # noqa
         if isinstance(e, (KeyboardInterrupt, SystemExit)):
@@ -616,7 +616,7 @@ def words(alpha, maxlen):
             yield "".join(t)
 
 
-def gen_cases(chk, cfg):
+def gen_cases(chk):
     rng = chk.rng
     thorough = chk.tier == "thorough"
     lim = sys.get_int_max_str_digits()
@@ -651,24 +651,24 @@ def gen_cases(chk, cfg):
 
     # ---- ANSI strings
     for w in words(ANSI_ALPHA, 5 if thorough else 4):
-        add("ANSI/exhaustive<=%d" % (5 if thorough else 4), [3, cfg, S(w)])
+        add("ANSI/exhaustive<=%d" % (5 if thorough else 4), [3, S(w)])
     if not thorough:
         for _ in range(12000):
-            add("ANSI/length5-sample", [3, cfg, S("".join(rng.choice(ANSI_ALPHA) for _ in range(5)))])
+            add("ANSI/length5-sample", [3, S("".join(rng.choice(ANSI_ALPHA) for _ in range(5)))])
     for s in ANSI_SPECIALS:
-        add("ANSI/special", [3, cfg, S(s)])
+        add("ANSI/special", [3, S(s)])
     if lim:
         for s in ["\x1b[" + "1" * lim + "mX", "\x1b[" + "1" * (lim + 1) + "mX", "\x9b" + "0" * (lim + 1) + "CX",
                   "\x1b[5;" + "7" * (lim + 7) + ";1mX"]:
-            add("ANSI/digit-limit", [3, cfg, S(s)])
+            add("ANSI/digit-limit", [3, S(s)])
     for _ in range(40000 if thorough else 4000):
         toks = gen_ansi_tokens(rng, rng.randint(1, 9))
         s = "".join(toks)
         if rng.random() < 0.15 and s:
             s = s[:rng.randint(0, len(s))]        # truncated
-        add("ANSI/token-grammar", [3, cfg, S(s)])
+        add("ANSI/token-grammar", [3, S(s)])
     for _ in range(20000 if thorough else 2000):
-        add("ANSI/random", [3, cfg, S("".join(rng.choice(ANSI_ALPHA + ["0", "9", "5", "8", "2", "4", " ", "\u0663", "H"])
+        add("ANSI/random", [3, S("".join(rng.choice(ANSI_ALPHA + ["0", "9", "5", "8", "2", "4", " ", "\u0663", "H"])
                                              for _ in range(rng.randint(6, 24))))])
 
     # ---- ANSI templates
@@ -678,13 +678,13 @@ def gen_cases(chk, cfg):
     for parts in fixed_t:
         for v in words(VAL_ALPHA, vmax):
             vals = [v] * (len(parts) - 1) if len(parts) == 2 else [v, v[::-1]]
-            add("ANSI-template/exhaustive-values<=%d" % vmax, [4, cfg, [S(p) for p in parts], [S(x) for x in vals]],
+            add("ANSI-template/exhaustive-values<=%d" % vmax, [4, [S(p) for p in parts], [S(x) for x in vals]],
                 {"holes": ["t"] * len(vals)})
     for _ in range(20000 if thorough else 2500):
         toks = gen_ansi_tokens(rng, rng.randint(1, 7), holes_ok=3)
         parts = to_parts(toks)
         vals = ["".join(rng.choice(VAL_ALPHA) for _ in range(rng.choice([0, 1, 2, 3, 5]))) for _ in parts[1:]]
-        add("ANSI-template/random", [4, cfg, [S(p) for p in parts], [S(v) for v in vals]], {"holes": ["t"] * len(vals)})
+        add("ANSI-template/random", [4, [S(p) for p in parts], [S(v) for v in vals]], {"holes": ["t"] * len(vals)})
 
     # ---- format specs (width / alignment / precision): the value formatted by the spec, then inert text
     spec_vals = list(words(["a", "<", "&", '"', "'", ">", "\x1b"], 2)) + ["a<b>c", "&&&&", "x<y>z", "<&>", "a&b", "\x9b31m", "\xe9<\u754c"]
@@ -703,27 +703,27 @@ def gen_cases(chk, cfg):
                     specs = [sp] if len(holes) == 1 else [sp, ".3" if (kk == 7 and "<" in sp2) else sp2]
                     vals = [format(r, q) for r, q in zip(raw, specs)]
                     add("%s-template/format-spec" % ("ANSI" if kk == 4 else "HTML"),
-                        [kk, cfg, [S(p) for p in parts], [S(x) for x in vals]], {"holes": holes, "specs": specs, "raw": raw})
+                        [kk, [S(p) for p in parts], [S(x) for x in vals]], {"holes": holes, "specs": specs, "raw": raw})
 
     # ---- escape functions
     esc_alpha = sorted(set(VAL_ALPHA + HTML_VAL_ALPHA + ["\x00", "\ufffe", "\x7f", "\x85"]))
     for w in words(esc_alpha, 2):
-        add("escape/exhaustive<=2", [5, cfg, S(w)])
+        add("escape/exhaustive<=2", [5, S(w)])
     for _ in range(30000 if thorough else 3000):
-        add("escape/random", [5, cfg, S("".join(rng.choice(esc_alpha) for _ in range(rng.randint(3, 12))))])
+        add("escape/random", [5, S("".join(rng.choice(esc_alpha) for _ in range(rng.randint(3, 12))))])
 
     # ---- HTML documents from the grammar, and near misses
     for _ in range(25000 if thorough else 3000):
         tree = gen_tree(rng, 3, [], 0)
         s = "".join(render_tree(tree))
-        add("HTML/grammar", [6, cfg, S(s)], {"tree": tree})
+        add("HTML/grammar", [6, S(s)], {"tree": tree})
         if rng.random() < 0.5 and s:
             i = rng.randrange(len(s))
             mut = rng.choice([s[:i] + s[i + 1:], s[:i] + rng.choice(HTML_RAW_ALPHA + ["\x1b", "\r", "\t", "]]>"]) + s[i:],
                               s[:i] + s[i:][::-1][:3] + s[i:]])
-            add("HTML/mutated", [6, cfg, S(mut)])
+            add("HTML/mutated", [6, S(mut)])
     for w in words(HTML_RAW_ALPHA, 5 if thorough else 4):
-        add("HTML/raw-exhaustive<=%d" % (5 if thorough else 4), [6, cfg, S(w)])
+        add("HTML/raw-exhaustive<=%d" % (5 if thorough else 4), [6, S(w)])
 
     # ---- HTML templates
     fixed_h = [(["<b>", "</b>"], ["t"]), (["", ""], ["t"]), (["<style fg=\"", "\">x</style>y"], ["d"]),
@@ -732,12 +732,12 @@ def gen_cases(chk, cfg):
     for parts, holes in fixed_h:
         for v in words(HTML_VAL_ALPHA, vmax if len(holes) == 1 else 2):
             vals = [v] if len(holes) == 1 else [v, v[::-1]]
-            add("HTML-template/exhaustive-values", [7, cfg, [S(p) for p in parts], [S(x) for x in vals]], {"holes": holes})
+            add("HTML-template/exhaustive-values", [7, [S(p) for p in parts], [S(x) for x in vals]], {"holes": holes})
     for v in HTML_SPECIAL_VALUES:
         for parts, holes in fixed_h[:4]:
-            add("HTML-template/special-values", [7, cfg, [S(p) for p in parts], [S(v)]], {"holes": holes})
+            add("HTML-template/special-values", [7, [S(p) for p in parts], [S(v)]], {"holes": holes})
     for v in words(BREAKOUT_ALPHA, 5 if thorough else 4):
-        add("HTML-template/single-quote-breakout", [7, cfg, [S("<style fg='"), S("'>x</style>")], [S(v)]], {"holes": ["s"]})
+        add("HTML-template/single-quote-breakout", [7, [S("<style fg='"), S("'>x</style>")], [S(v)]], {"holes": ["s"]})
     for _ in range(20000 if thorough else 2500):
         holes = []
         tree = gen_tree(rng, 3, holes, rng.choice([1, 2, 3, 4]))
@@ -745,10 +745,10 @@ def gen_cases(chk, cfg):
         vals = ["".join(rng.choice(HTML_VAL_ALPHA) for _ in range(rng.choice([0, 1, 1, 2, 3, 5]))) for _ in holes]
         if rng.random() < 0.5:
             vals = [re.sub("[ \n\xa0'\x1b\x01\x02]", "a", v) for v in vals]      # a benign-ish half
-        add("HTML-template/random", [7, cfg, [S(p) for p in parts], [S(v) for v in vals]], {"holes": holes})
+        add("HTML-template/random", [7, [S(p) for p in parts], [S(v) for v in vals]], {"holes": holes})
 
     # ---- malformed cases: the model must answer bad_case, never an implementation result
-    for bad in ([], [0], [1, 5], [3, cfg], [3, [1, 1], S("a")], [4, cfg, [S("a")], [S("b")]], [7, cfg, [], []], [9, cfg, S("a")],
+    for bad in ([], [0], [1, 5], [3], [3, [1, 1], S("a")], [4, [S("a")], [S("b")]], [7, [], []], [9, S("a")], [3, [1, 1, 1, 1, 1, 1], S("a")],
                 [1, [[S("a"), S("b")]]], [2, S(""), [[S("a"), 5, []]]]):
         add("malformed", bad, {"malformed": True})
     return cases, meta, dist
@@ -766,15 +766,15 @@ def oracle_case(case, res, m):
         bad = oracle_helpers(case[1], case[2], res)
         return bad and ("%s: %s" % (describe_case(case), bad[0]), {"op": "fragment-helpers", "family": bad[1]})
     if k == 3:
-        bad = oracle_ansi(unS(case[2]), res)
+        bad = oracle_ansi(unS(case[1]), res)
         return bad and (bad[0], dict(bad[1], op="ANSI"))
     if k == 5:
-        return oracle_escape(unS(case[2]), res)
+        return oracle_escape(unS(case[1]), res)
     if k in (4, 7):
         from prompt_toolkit.formatted_text import ANSI, HTML
         cls, kind = (ANSI, "ANSI") if k == 4 else (HTML, "HTML")
-        parts = [unS(p) for p in case[2]]
-        vals = [unS(v) for v in case[3]]
+        parts = [unS(p) for p in case[1]]
+        vals = [unS(v) for v in case[2]]
         cache = {tuple(vals): res}
 
         def run(p, v):
@@ -784,7 +784,7 @@ def oracle_case(case, res, m):
         return oracle_inert(kind, parts, vals, m["holes"], run)
     if k == 6 and m and "tree" in m:
         exp = expected_html(m["tree"])
-        s = unS(case[2])
+        s = unS(case[1])
         if exp == "ValueError":
             if res != [1]:
                 return ("HTML(%r): expected the fg/bg space ValueError, got %r" % (s, res), {"op": "HTML", "family": "space-guard"})
@@ -809,7 +809,7 @@ def nontrivial(case, res):
     if k in (3, 4, 6, 7):
         return isinstance(res, list) and len(res) == 2 and res[0] == 0 and len(res[1]) > 0
     if k == 5:
-        return isinstance(res, list) and len(res) == 2 and (res[0] != case[2] or res[1] != case[2])
+        return isinstance(res, list) and len(res) == 2 and (res[0] != case[1] or res[1] != case[1])
     return False
 
 
@@ -826,10 +826,10 @@ def describe_case(case):
         if k == 2:
             return "helpers(style=%r, %s)" % (unS(case[1]), short(to_tuples(case[2]), 120))
         if k in (3, 5, 6):
-            return "%s(%s)" % (OPN[k], short(unS(case[2]), 120))
+            return "%s(%s)" % (OPN[k], short(unS(case[1]), 120))
         if k in (4, 7):
-            tm, tf = templates_for([unS(p) for p in case[2]])
-            return "%s(%s) %% %s" % ("ANSI" if k == 4 else "HTML", short(tm, 100), short(tuple(unS(v) for v in case[3]), 100))
+            tm, tf = templates_for([unS(p) for p in case[1]])
+            return "%s(%s) %% %s" % ("ANSI" if k == 4 else "HTML", short(tm, 100), short(tuple(unS(v) for v in case[2]), 100))
     except Exception:  # noqa
         pass
     return short(case, 160)
@@ -843,14 +843,22 @@ def main(tier):
         chk.violation("tie", "model does not build: " + logm[-400:], {"kind": "model-build"}, {"log": logm[-3000:]}, no_input=True)
         return chk.finish()
 
-    cfg = probe_cfg()
-    chk.note("variant of /repo by probing (ansi_escape C1, CSI ASCII digits, html ', html XML-safe, zero-width loop, fg/bg isspace): %r" % cfg)
-    chk.coverage["variant"] = cfg
-    cases, meta, dist = gen_cases(chk, cfg)
+    # The model follows the code that is in /repo now (all six C18 repairs).  The probe is only a
+    # consistency check: a /repo in which one of the repaired functions behaves like the pinned
+    # snapshot again is reported (and the oracle below supplies the failing inputs).
+    variant = probe_cfg()
+    chk.coverage["variant_probe"] = variant
+    if variant != [1] * 6:
+        names = ["ansi_escape neutralises \\x9b \\001 \\002", "CSI parameters: ASCII digits, bounded int", "html_escape escapes '",
+                 "html_escape neutralises characters XML cannot carry", "zero-width region returns to the top of the loop",
+                 "fg/bg guard rejects every whitespace character"]
+        lost = [n for n, b in zip(names, variant) if not b]
+        chk.violation("tie", "/repo no longer behaves like the repaired code the model follows: " + "; ".join(lost),
+                      {"kind": "variant-probe", "lost": ",".join(str(i) for i, b in enumerate(variant) if not b)},
+                      {"probe": variant, "expected": [1] * 6, "lost": lost,
+                       "failing_input": "see the other replay files of this run"}, no_input=True)
+    cases, meta, dist = gen_cases(chk)
     corpus = load_corpus(PROP)
-    for c in corpus:                    # stored cases carry the variant they were found under
-        if isinstance(c, list) and len(c) >= 3 and c[0] in (3, 4, 5, 6, 7):
-            c[1] = list(cfg)
     cases = corpus + cases
     meta = [None] * len(corpus) + meta
     impl_results = []
